@@ -98,7 +98,7 @@ Print Assumptions C16_exact_avail_on_time.
     the epoch or in September 2025, availability time offsets 0, 1 and 1.5 s, for the first 2500
     segments.  The unbounded statement needs the float64 error analysis (a Flocq bridge) and is
     the hypothesis [avail_on_time] of [C16_complete_partial]; the correspondence samples it on
-    every run (oracle key avail:*). *)
+    every run (oracle keys starting with "avail:"). *)
 Theorem C16_ceil_on_time_bounded : forall dur tsc startS atoMS n,
   In (dur, tsc) bundled_grids -> In startS [0; 1758000000] -> In atoMS [0; 1000; 1500] ->
   0 <= n < 2500 ->
